@@ -24,6 +24,7 @@ use std::sync::{Arc, Mutex};
 
 use c20::interp::{self, Env, Slot, Slots};
 use c20::prog::*;
+use c20::prog::generate_small;
 use jiff::tz::TimeZone;
 
 struct Shared {
